@@ -450,6 +450,33 @@ def stepC11 (ts : List String) : String :=
     | _, _, _, _, _, _ => "bad-op"
   | _ => "bad-op"
 
+/-- `C17 hist ni nb nbin nops {d <nb drifts> | p <ni drifts>}… <ni*nb*nbin data>` → cube after each op, `;`-separated -/
+def parseC17Ops (ni nb : Nat) : Nat → List String → Option (List FoldedCube.Op × List String)
+  | 0, ts => some ([], ts)
+  | k + 1, "d" :: rest => do
+    let d ← intList? (rest.take nb); let (r, t) ← parseC17Ops ni nb k (rest.drop nb); pure (.dm d :: r, t)
+  | k + 1, "p" :: rest => do
+    let d ← intList? (rest.take ni); let (r, t) ← parseC17Ops ni nb k (rest.drop ni); pure (.period d :: r, t)
+  | _, _ => none
+
+def stepC17 (ts : List String) : String :=
+  match ts with
+  | "hist" :: ni :: nb :: nbin :: nops :: rest =>
+    match ni.toNat?, nb.toNat?, nbin.toNat?, nops.toNat? with
+    | some ni, some nb, some nbin, some nops =>
+      match parseC17Ops ni nb nops rest with
+      | some (ops, dataTs) =>
+        match intList? dataTs with
+        | some flat =>
+          if flat.length ≠ ni * nb * nbin then "bad-op" else
+          let cube := (toRows (nb * nbin) ni flat).map (toRows nbin nb)
+          " ; ".intercalate ((FoldedCube.trace (FoldedCube.init cube) ops).map
+            (fun st => showInts (st.data.flatten.flatten)))
+        | none => "bad-op"
+      | none => "bad-op"
+    | _, _, _, _ => "bad-op"
+  | _ => "bad-op"
+
 def step (line : String) : String :=
   match (line.trimAscii.toString.splitOn " ").filter (· ≠ "") with
   | "C03" :: rest => stepC03 rest
@@ -461,6 +488,7 @@ def step (line : String) : String :=
   | "C08" :: rest => stepC08 rest
   | "C09" :: rest => stepC09 rest
   | "C11" :: rest => stepC11 rest
+  | "C17" :: rest => stepC17 rest
   | "C04" :: rest => stepC04 rest
   | "C10" :: rest => stepC10 rest
   | _ => "bad-op"
